@@ -29,6 +29,9 @@ def dispatch(prop):
     if prop == "C04":
         import e3_pipeline
         return e3_pipeline.main
+    if prop == "C13":
+        import e3_persist
+        return e3_persist.main
     raise SystemExit(f"unknown property {prop}")
 
 
